@@ -211,12 +211,12 @@ Proof.
     destruct (p_b s); auto; destruct c4; auto.
 Qed.
 
-Theorem invc_run g sched : forall s s', InvA s -> InvC s -> (g_kind g = Ring \/ g_putfail0 g = false) ->
+Theorem invc_run g sched : forall s s', InvA s -> InvC s ->
   prun g sched s = Some s' -> InvA s' /\ InvC s'.
 Proof.
-  induction sched as [|l r IH]; intros s s' IA IC Hg H; cbn [prun] in H.
+  induction sched as [|l r IH]; intros s s' IA IC H; cbn [prun] in H.
   - inversion H; subst; auto.
-  - destruct (pstep g s l) as [s1|] eqn:E; [|discriminate]. eapply IH; [| |exact Hg|exact H].
+  - destruct (pstep g s l) as [s1|] eqn:E; [|discriminate]. eapply IH; [| |exact H].
     + eapply inva_step; eauto.
     + eapply invc_step; eauto.
 Qed.
@@ -237,7 +237,7 @@ Qed.
 
 (** ** C04_drain: after the clean-up loop has left (waits = 0) nobody waits on this pipe any more *)
 Definition quiet_c (c : crec) : Prop :=
-  match k_pc c with PIdle | PIncr | PLoad _ | PErr | PDecr false | PBgAfter | PRet => True | _ => False end /\
+  match k_pc c with PIdle | PIncr | PLoad _ | PErr | PDecr false | PRet => True | _ => False end /\
   (k_drain c = DNone \/ k_drain c = DDone).
 Definition quiet_k (k : kpc) : Prop :=
   match k with KIdle | K1 _ | K2 false false | K5 | KDone => True | _ => False end.
@@ -343,20 +343,13 @@ Proof.
     eapply (invd_call s _ t); [exact ID|reflexivity|reflexivity|reflexivity|intros u; reflexivity|]. qsolve Epc.
   - (* LDecr *) destruct (k_pc (p_calls s t)) as [| | | | | | |st0| | | | |] eqn:Epc; try discriminate.
     break_step H; inversion H; subst; clear H; (eapply (invd_call s _ t); [exact ID|reflexivity|reflexivity|reflexivity|intros u; reflexivity|]); qsolve Epc.
+    destruct st0; [exact Q1|discriminate E].
   - (* LBgAfter *) destruct (k_pc (p_calls s t)) eqn:Epc; try discriminate. inversion H; subst; clear H.
     destruct ID as [d1 d2]. constructor.
     + unfold do_background. destruct (p_bg s); cbn; auto.
     + intros Hd. assert (Hd' : drained s).
       { unfold drained, do_background in *. destruct (p_bg s); cbn in *; auto. destruct Hd; discriminate. }
-      destruct (d2 Hd') as [A B].
-      assert (Ec : p_closers (set_call (do_background s) t (with_ret (p_calls s t) (k_res (p_calls s t)))) = p_closers s)
-        by (unfold do_background; destruct (p_bg s); reflexivity).
-      split; [|intros u; rewrite Ec; apply B].
-      intros u. assert (Ecalls : p_calls (set_call (do_background s) t (with_ret (p_calls s t) (k_res (p_calls s t)))) u =
-                                  upd (p_calls s) t (with_ret (p_calls s t) (k_res (p_calls s t))) u)
-        by (unfold do_background; destruct (p_bg s); reflexivity).
-      rewrite Ecalls. unfold upd. destruct (N.eqb u t); [|apply A].
-      destruct (A t) as [_ Q2]. split; cbn; auto.
+      destruct (d2 Hd') as [A B]. exfalso. destruct (A t) as [Q _]. rewrite Epc in Q. exact Q.
   - (* LPut *) destruct (k_pc (p_calls s t)) eqn:Epc; try discriminate. break_step H. inversion H; subst; clear H.
     eapply (invd_call s _ t); [exact ID|reflexivity|reflexivity|reflexivity|intros u; reflexivity|]. qsolve Epc.
   - (* LPutFail *) destruct (k_pc (p_calls s t)) eqn:Epc; try discriminate. break_step H. inversion H; subst; clear H.
@@ -439,7 +432,6 @@ Qed.
 
 Section Life.
   Variable g : config.
-  Hypothesis Hg : g_kind g = Ring \/ g_putfail0 g = false.
 
   Theorem life_run sched : forall s s', InvA s -> InvC s -> InvD s -> prun g sched s = Some s' -> InvA s' /\ InvC s' /\ InvD s'.
   Proof.
